@@ -28,7 +28,8 @@ REAL_COMPONENTS = ['parser objects of the three shipped dialects (long-lived)', 
                    'JsonCodeGen.genIndex', 'the same objects created fresh per operation (reference)', 'child interpreters with other PYTHONHASHSEED values']
 STUB_COMPONENTS = ['sources/writer (callbacks over in-memory texts)', 'clock and host identity (pinned, so that generated comments are inputs)']
 RULE = ('seeded histories of 3-10 operations: parse(valid corpus file | 11 kinds of failing text incl. failures inside MACRO/EXPORTS/CHOICE/comment/string), '
-        'compile(generated module set with healthy and defective members, SMIv1 INDEX types, with/without REVISION; json or pysnmp), genIndex(earlier results), repeat(earlier op); '
+        'compile(generated module set with healthy and defective members, SMIv1 INDEX types, refined enumerated types used by other modules, with/without REVISION; one or several requested modules in any order; json or pysnmp), '
+        'genIndex(earlier results), repeat(earlier op); for joint calls every written module is also compiled alone by fresh objects (its text must not depend on what else the call compiled); '
         'each history runs in the parent (hash seed 0) and in 2 child interpreters with hash seeds from a palette of 5; '
         'distinct = distinct (sequence of op kinds and outcomes, child seeds); non-trivial = every history (>=3 operations on long-lived objects)')
 ASSUMPTIONS = ['behaviour after asynchronous exceptions (no input can cause them) is not demanded',
@@ -127,6 +128,10 @@ def run(scn):
             V('C12.1-fresh-instance', 'operation %d (%s %s) on the long-lived objects differs from the same operation on fresh objects: %s' % (
                 i, base['op'], desc, hs.diff_obs(r['obs'], r['fresh_obs'])), opkind=base['op'], what=_difftag(r['obs'], r['fresh_obs']),
               after_failures=earlier_failed, position=i)
+        for m, (joint, alone) in sorted(r.get('solo', {}).items()):
+            if joint != alone:
+                V('C12.4-context', 'operation %d: the text written for %s by compile(%s) differs from the text written for it by compile(%s) on fresh objects over the same sources with the same options' % (
+                    i, m, ', '.join(base['requested']), m), opkind='compile', what='co-compiled', module=m)
         if op['op'] == 'repeat':
             first = recs[op['of']]
             if first['long'] != r['long']:
@@ -159,7 +164,8 @@ def run(scn):
     fph = hashlib.sha256(json.dumps([[o['op'], o.get('bad'), o.get('of')] for o in ops] + shape).encode()).hexdigest()[:32]
     out = {'violations': viol, 'sig': sig, 'nontrivial': True, 'events': len(recs) * (2 + 2 * nchild), 'sim_s': 0,
            'fired': {'failing-operation': sum(1 for r in recs if r['failed'])} if any(r['failed'] for r in recs) else {},
-           'probes': {'histories': 1, 'child-runs': nchild, 'ops': len(recs), 'ops-after-a-failure': sum(1 for i in range(len(recs)) if any(recs[j]['failed'] for j in range(i)))},
+           'probes': {'histories': 1, 'child-runs': nchild, 'ops': len(recs), 'ops-after-a-failure': sum(1 for i in range(len(recs)) if any(recs[j]['failed'] for j in range(i))),
+                      'modules-also-compiled-alone': sum(len(r.get('solo', {})) for r in recs)},
            'fp': fp, 'fph': fph, 'comps': {'operations(long-lived)': len(recs), 'operations(fresh)': len(recs), 'operations(child interpreters)': len(recs) * nchild}, 'shape': shape}
     if herr:
         out['harness_error'] = herr
@@ -187,7 +193,7 @@ def gen_compile_op(rng, tier):
             op['options']['keepLayout'] = True
         return op
     n = rng.choice([1, 2, 2, 3])
-    specs = mibgen.gen_modules(rng, n, cycles=rng.random() < 0.3, defects=rng.choice([0.0, 0.0, 0.3]), smiv1=0.2, identity=0.6, oiddefval=0.15)
+    specs = mibgen.gen_modules(rng, n, cycles=rng.random() < 0.3, defects=rng.choice([0.0, 0.0, 0.3]), smiv1=0.2, identity=0.6, oiddefval=0.15, enumtc=rng.choice([0.0, 0.5, 0.8]))
     for sp in specs.values():
         if rng.random() < 0.2:
             sp['fakeidx'] = True
@@ -200,6 +206,13 @@ def gen_compile_op(rng, tier):
             op['options'][name] = True
     if rng.random() < 0.15:
         op['absent'] = [rng.choice(sorted(specs))]
+    if n > 1 and rng.random() < 0.45:
+        # several requested modules in an arbitrary order; each module's text is then also produced on its own
+        req = rng.sample(sorted(specs), rng.randrange(2, n + 1))
+        op['requested'] = req
+        op['solo'] = True
+    elif rng.random() < 0.3:
+        op['solo'] = True
     return op
 
 
@@ -236,7 +249,7 @@ def catalog():
     return leaving, probing
 
 
-SWEEP_SET = {'quick': 'every pair (state-leaving operation, probing operation) of the catalog, on long-lived objects vs fresh objects (no child interpreters)',
+SWEEP_SET = {'quick': 'every pair (state-leaving operation, probing operation) of the catalog, on long-lived objects vs fresh objects (no child interpreters); 6 joint-vs-alone calls over modules sharing a refined enumerated type',
              'thorough': 'same, plus every triple ending in a repeat of the first operation'}
 
 
@@ -250,6 +263,12 @@ def sweep(tier):
             if tier == 'thorough':
                 ops.append({'op': 'repeat', 'of': 0})
             out.append({'ops': ops, 'child_hash_seeds': [], 'pair': True})
+    # joint call vs each module on its own: a module that refines an enumerated type, users of that type in other modules
+    for req in (['BBB-MIB', 'AAA-MIB'], ['AAA-MIB', 'BBB-MIB'], ['CCC-MIB', 'BBB-MIB', 'AAA-MIB']):
+        specs = {'AAA-MIB': _fixed_spec('AAA-MIB', enumtc=True), 'BBB-MIB': _fixed_spec('BBB-MIB', arc=10, imports=['AAA-MIB'], enumuse='AAA-MIB'),
+                 'CCC-MIB': _fixed_spec('CCC-MIB', arc=11, imports=['AAA-MIB'], enumuse='AAA-MIB', compliance=True)}
+        for cg in ('json', 'pysnmp'):
+            out.append({'ops': [{'op': 'compile', 'modules': _c.deepcopy(specs), 'requested': req, 'codegen': cg, 'options': {}, 'solo': True}], 'child_hash_seeds': [], 'pair': True})
     return out
 
 
@@ -334,7 +353,7 @@ def shrink(scn):
                 del s['ops'][i]['options'][k]
                 yield s
             for m, sp in sorted(o['modules'].items()):
-                for fld in ('fakeidx', 'compliance', 'smiv1', 'identity'):
+                for fld in ('fakeidx', 'compliance', 'smiv1', 'identity', 'enumtc', 'enumuse', 'oiddefval', 'dupobj'):
                     if sp.get(fld):
                         s = copy.deepcopy(scn)
                         s['ops'][i]['modules'][m][fld] = False
@@ -361,5 +380,5 @@ def describe(scn, out):
     d = copy.deepcopy({k: v for k, v in scn.items() if k != '_world'})
     for o in d['ops']:
         if o['op'] == 'compile':
-            o['modules'] = {n: {k: v for k, v in sp.items() if k in ('imports', 'variant', 'fakeidx', 'smiv1', 'identity', 'revisions')} for n, sp in o.get('modules', {}).items()}
+            o['modules'] = {n: {k: v for k, v in sp.items() if k in ('imports', 'variant', 'fakeidx', 'smiv1', 'identity', 'revisions', 'enumtc', 'enumuse')} for n, sp in o.get('modules', {}).items()}
     return {'history': d, 'shape': out.get('shape')}
